@@ -40,6 +40,14 @@ partial def tyOf (env : List (String × Sexp)) (fuel : Nat) : Sexp → Option Ty
       let t ← tyOf env fuel e
       some (.arr t (← lo.nat?) (← boundNat? hi))
   | .atom "num" => some .numeric
+  | .atom "bin" => some .binary
+  | .atom "tsp" => some (.timespan F64.minInt F64.maxInt)
+  | .list [.atom "tsp", lo, hi] => do
+      -- bounds in whole seconds, `d` = default
+      let l ← boundInt? lo
+      let h ← boundInt? hi
+      some (.timespan (match l with | some x => x * 1000000000 | none => F64.minInt)
+                      (match h with | some x => x * 1000000000 | none => F64.maxInt))
   | .atom "flt" => some (.float (-F64.maxFiniteKey) F64.maxFiniteKey)
   | .list [.atom "flt", lo, hi] => do
       some (.float (← fboundOf? (-F64.maxFiniteKey) lo) (← fboundOf? F64.maxFiniteKey hi))
@@ -68,6 +76,8 @@ partial def valOf : Sexp → Option Val
   | .list [.atom "s", s] => s.str?.map .str
   | .list [.atom "b", b] => b.bool?.map .bool
   | .list [.atom "f", b] => b.nat?.bind fun n => if n < 2 ^ 64 then some (.float n) else none
+  | .list [.atom "bin", b] => b.bytes?.map fun bs => .binary bs
+  | .list [.atom "ts", n] => n.int?.bind fun x => if F64.minInt ≤ x && x ≤ F64.maxInt then some (.timespan x) else none
   | .list [.atom "u"] => some .undef
   | .list [.atom "d"] => some .default
   | .list (.atom "a" :: vs) => (vs.mapM valOf).map .arr
@@ -119,6 +129,8 @@ partial def valStr : Val → String
   | .str s => s!"(s {hexOfString s})"
   | .bool b => s!"(b {boolStr b})"
   | .float b => s!"(f {b})"
+  | .binary bs => s!"(bin x{hexOfBytes bs})"
+  | .timespan n => s!"(ts {n})"
   | .undef => "(u)"
   | .default => "(d)"
   | .arr vs => "(a" ++ String.join (vs.map fun v => " " ++ valStr v) ++ ")"
